@@ -287,7 +287,7 @@ def _check_predict(case):
     if pred.shape != (len(Xt),):
         return viol("shape", "shape of predict(X)", pred.shape, (len(Xt),))
     if kind == "continuous":
-        if not np.array_equal(pred.astype(float), raw.reshape(-1).astype(float)):
+        if not np.array_equal(pred.astype(float), raw.reshape(-1).astype(float), equal_nan=True):
             return viol("regression-raw", "regressor predict differs from the raw predictor output", pred.tolist(), raw.reshape(-1).tolist())
         return (True, fp, None)
     cats = sorted(set(y.tolist()))
